@@ -11,13 +11,13 @@ import (
 	"testing"
 	"time"
 
+	"github.com/OffchainLabs/go-bitfield"
 	eth2api "github.com/attestantio/go-eth2-client/api"
 	eth2v1 "github.com/attestantio/go-eth2-client/api/v1"
 	eth2spec "github.com/attestantio/go-eth2-client/spec"
 	"github.com/attestantio/go-eth2-client/spec/altair"
 	"github.com/attestantio/go-eth2-client/spec/electra"
 	eth2p0 "github.com/attestantio/go-eth2-client/spec/phase0"
-	"github.com/OffchainLabs/go-bitfield"
 
 	"github.com/obolnetwork/charon/app/eth2wrap"
 	"github.com/obolnetwork/charon/core"
@@ -96,10 +96,10 @@ func c18attestation(v eth2spec.DataVersion) *eth2spec.VersionedAttestation {
 }
 
 type c18endpoint struct {
-	name   string
-	typ    string            // value type delivered to the subscribers
-	req    func() any        // fresh request object (deterministic: deep copy of one generated master)
-	call   func(c *Component, w *alias.World, req any) error
+	name string
+	typ  string     // value type delivered to the subscribers
+	req  func() any // fresh request object (deterministic: deep copy of one generated master)
+	call func(c *Component, w *alias.World, req any) error
 }
 
 func c18endpoints(t *testing.T) []c18endpoint {
